@@ -5961,10 +5961,22 @@ class FlowIRConcrete(object):
                 # VV: Add anything that is missing just before applying string interpolation
                 ret = FlowIR.inject_default_values_to_component(ret, True)
 
+            # VV: The override sections of *other* platforms are not part of the configuration of the component on
+            #     @platform. They may reference variables that only their own platform defines, therefore we must not
+            #     resolve them using the variables of @platform - just carry them through as they are.
+            foreign_overrides = {}
+            if isinstance(ret.get('override'), dict):
+                for other_platform in list(ret['override']):
+                    if other_platform != platform:
+                        foreign_overrides[other_platform] = ret['override'].pop(other_platform)
+
             ret = FlowIR.fill_in(ret, variables, flowir=self._flowir, label=full_name, is_primitive=is_primitive)
             FlowIR.convert_component_types(
                 ret, ignore_convert_errors=ignore_convert_errors, is_primitive=is_primitive
             )
+
+            if foreign_overrides:
+                ret['override'].update(foreign_overrides)
 
         # VV: Interpreters will *never* expand their arguments
         if ret.get('command', {}).get('interpreter', None) is not None:
